@@ -28,7 +28,7 @@ CONFIGS = {
 
 DEFAULT_NOINLINE = [r'@_ZN?K?5unodb6detail14basic_node_ptr[^(]*(7tag_ptr|4typeEv|3ptrI)']
 EXTERN_C = ['in_u64', 'in_u32', 'in_u16', 'in_u8', 'verif_observe', 'verif_witness', 'verif_fail_alloc_at',
-            'verif_alloc_count', 'verif_live_allocs', 'verif_live_bytes', 'verif_mutex_held', 'verif_yield_arm', 'verif_yield_disarm', 'verif_yield_fired', 'verif_yield_seen']
+            'verif_alloc_count', 'verif_live_allocs', 'verif_live_bytes', 'verif_mutex_held', 'verif_mutex_foreign', 'verif_yield_arm', 'verif_yield_disarm', 'verif_yield_fired', 'verif_yield_seen']
 
 
 class BuildError(Exception):
